@@ -180,6 +180,11 @@ def gen_case(rng, tier, index):
                 for _ in range(rng.randrange(0, 3))]
         case["newfunc"] = {"name": "newfn0", "body": nops}
     case["own_function_analysis"] = rng.random() < 0.25
+    if again and fnames and rng.random() < 0.7:
+        # between the two contexts the module's entry point moves to
+        # another function: ENTRYPOINT_NAME is a matter of the module as it
+        # is, not of what a scope object saw before
+        case["move_entry"] = rng.choice(fnames)
     return case
 
 
@@ -310,6 +315,11 @@ def run_again(case):
                 except UnresolvableScopeError:
                     pass
             ctx.apply()
+            if rnd == 0 and case.get("move_entry"):
+                ref = bu.symbols[case["move_entry"]].referent
+                if isinstance(ref, gtirb.CodeBlock):
+                    m.entry_point = ref
+                    ctr["entry_points_moved"] = 1
         # where the patches landed: the bytes of every original interval
         # (the CFG of the second round also depends on where the first
         # round's final re-layout put unconnected intervals, F34)
